@@ -84,7 +84,7 @@ func (m *Monitors) region(name string) { m.regions[name] = true }
 // violate records a violation; props may name several properties ("C04,C03").
 func (m *Monitors) violate(props, sig, what string) {
 	m.s.logf("VIOLATION %s %s: %s", props, sig, what)
-	if m.alsoProp != "" && !strings.Contains(props, m.alsoProp) && (m.alsoWhat != "" || strings.HasPrefix(sig, "row:")) {
+	if m.alsoProp != "" && !strings.Contains(props, m.alsoProp) && (m.alsoWhat != "" || strings.HasPrefix(sig, "row:")) && !strings.HasSuffix(sig, "-finished-by-late-completion") {
 		props += "," + m.alsoProp
 		if m.alsoWhat != "" {
 			sig = "restart:" + sig
